@@ -59,8 +59,12 @@ package ports
 //@   ensures forall(j, 0, len(networks), !heldOn(s, networks[j], transport, addr, port))
 //@   ensures forallkey(d, s.allocatedPorts, implies(d.transport != transport || d.port != port,
 //@             has(s.allocatedPorts, d) == old(has(s.allocatedPorts, d)) && s.allocatedPorts[d] == old(s.allocatedPorts[d])))
+//@   ensures forall(j, 0, len(networks), forallkey(a, old(s.allocatedPorts[portDescriptor{networks[j], transport, port}]),
+//@             implies(a != addr, heldOn(s, networks[j], transport, a, port) == old(heldOn(s, networks[j], transport, a, port)))))
 //@   loop 1 invariant pmOK(s)
 //@   loop 1 invariant forall(j, 0, rangeindex + 1, !heldOn(s, networks[j], transport, addr, port))
+//@   loop 1 invariant forall(j, 0, len(networks), forallkey(a, old(s.allocatedPorts[portDescriptor{networks[j], transport, port}]),
+//@             implies(a != addr, heldOn(s, networks[j], transport, a, port) == old(heldOn(s, networks[j], transport, a, port)))))
 //@   loop 1 invariant forallkey(d, s.allocatedPorts, implies(d.transport != transport || d.port != port,
 //@             has(s.allocatedPorts, d) == old(has(s.allocatedPorts, d)) && s.allocatedPorts[d] == old(s.allocatedPorts[d])))
 //@   modifies entries(s.allocatedPorts), mapfamily(bindAddresses)
